@@ -1,11 +1,11 @@
 package sym
 
 import (
-	"os"
 	"fmt"
 	"go/constant"
 	"go/token"
 	"go/types"
+	"os"
 	"sort"
 	"strings"
 	"sync"
@@ -35,28 +35,28 @@ type Exec struct {
 	initv      *initInfo // initial values of package variables (initvals.go)
 	hasInitial bool      // some contract file has an "initial" directive
 	implIfaces map[string]types.Type
-	implCache map[string][]implCase
-	RootPkg string // package path of the function under verification (see usable)
-	B       *smt.Builder
-	Prog    *ssa.Program
-	Specs   map[string]*spec.DB // by package path
-	assumes []*smt.Term
-	Obls    []*Obligation
-	havocN  int
-	cellN   int
-	fnIDs   map[*ssa.Function]*smt.Term
-	idFn    map[*smt.Term]Value // function-id term -> *Closure / *FuncVal
-	typeIDs map[string]*smt.Term
-	typeOf  map[int64]types.Type
-	strs    map[string]*smt.Term
-	depth   int
-	Notes   map[string]bool // library specifications and assumptions actually used
-	Unsup   []string        // unsupported constructs met (each makes the enclosing check undischarged)
-	NoObl   int             // >0: obligations suppressed (while evaluating assumed contracts)
-	prefix  string          // obligation name prefix (function under verification)
-	sig     string          // path signature injected into obligation names
-	oblN    map[string]int
-	liveKey string
+	implCache  map[string][]implCase
+	RootPkg    string // package path of the function under verification (see usable)
+	B          *smt.Builder
+	Prog       *ssa.Program
+	Specs      map[string]*spec.DB // by package path
+	assumes    []*smt.Term
+	Obls       []*Obligation
+	havocN     int
+	cellN      int
+	fnIDs      map[*ssa.Function]*smt.Term
+	idFn       map[*smt.Term]Value // function-id term -> *Closure / *FuncVal
+	typeIDs    map[string]*smt.Term
+	typeOf     map[int64]types.Type
+	strs       map[string]*smt.Term
+	depth      int
+	Notes      map[string]bool // library specifications and assumptions actually used
+	Unsup      []string        // unsupported constructs met (each makes the enclosing check undischarged)
+	NoObl      int             // >0: obligations suppressed (while evaluating assumed contracts)
+	prefix     string          // obligation name prefix (function under verification)
+	sig        string          // path signature injected into obligation names
+	oblN       map[string]int
+	liveKey    string
 	// hooks
 	OnMakeClosure func(f *Frame, st *State, mc *ssa.MakeClosure, c *Closure)
 	OnFuncValue   func(f *Frame, st *State, v *ssa.Function) // a function literal without captured variables is boxed
@@ -251,7 +251,7 @@ type exitRec struct {
 	results []Value
 	where   string
 	panicV  Value
-	kind    string // return | panic | noreturn-call
+	kind    string          // return | panic | noreturn-call
 	blk     *ssa.BasicBlock // the block of the return instruction (names of its scope resolve there)
 }
 
@@ -281,9 +281,9 @@ type Frame struct {
 	outer      *Frame // frame of the enclosing function (for closure contracts)
 	iters      map[*ssa.Range]*rangeIter
 	inOld      int
-	stepFrom   *ssa.BasicBlock // ... and the block the back edge leaves from (names of the loop body resolve there)
+	stepFrom   *ssa.BasicBlock    // ... and the block the back edge leaves from (names of the loop body resolve there)
 	prevVals   map[*ssa.Phi]Value // while a "loop N step" clause is evaluated: the loop variables at the start of the iteration
-	pathMode   bool // loop-free function explored path by path, without merging states at joins
+	pathMode   bool               // loop-free function explored path by path, without merging states at joins
 	pathCount  int
 	beforeSeen int // call-site assertions ("before") emitted
 	// ghost history of static calls made by the function under verification: callee name -> the
